@@ -909,10 +909,12 @@ func ruleScan(w *core.World, r *core.Report) {
 	if f != nil {
 		okConst := false
 		okSize := false
+		nScanSites, nScanFalse := 0, 0
 		for _, g := range core.DeepFuncs(f) {
 			for _, s := range core.SitesNamed(g, false, "pkg/store.ParseRdbFile") {
+				nScanSites++
 				if b, isB := core.ConstBool(s.Args()[1]); isB && !b {
-					okConst = true
+					nScanFalse++
 				}
 			}
 			// every path of the scan callback that indexes a segment has established size > 0 (directly, or
@@ -957,6 +959,7 @@ func ruleScan(w *core.World, r *core.Report) {
 				okSize = all && n > 0
 			}
 		}
+		okConst = nScanSites > 0 && nScanFalse == nScanSites
 		r.Check(okConst, "initDataSet/ignores-temporary-snapshots", f.Pos(), "the scan must not accept '*.rdb.tmp' files (ParseRdbFile(name, false))")
 		r.Check(okSize, "initDataSet/ignores-empty-segments", f.Pos(), "a segment must be indexed only when it holds data (size > 0)")
 	}
